@@ -231,10 +231,24 @@ def entry_point_check(ctx):
         (d / "a.dx").write_text("".join(l + "\n" for l in case["lines"]))
         pqr = ""
         atoms = []
-        for i in range(3):
-            x, y, z, q, r = 1.5 + i, -2.25, 3.0, -0.5, 1.8
-            pqr += f"ATOM  {i+1:5d}  CA  ALA A{i+1:4d}    {x:8.3f}{y:8.3f}{z:8.3f} {q:7.4f} {r:6.4f}\n"
-            atoms.append((i + 1, f"{q:.4f}", f"{x:.3f}", f"{y:.3f}", f"{z:.3f}"))
+        # the PQR side of dx2cube goes through io.read_pqr: ATOM and HETATM records in pdb2pqr's own
+        # fixed-column layout, including serials >= 10000 where the record name runs into the serial
+        # ("HETATM10001"), REMARK/TER/END lines in between, and the whitespace layout
+        specs = [("ATOM", 1), ("ATOM", 2), ("HETATM", 3), ("ATOM", 9999), ("HETATM", 10001), ("HETATM", 99999), ("ATOM", 10002)]
+        ctx.rng.shuffle(specs)
+        specs = specs[: ctx.rng.randint(3, len(specs))]
+        ws = ctx.rng.random() < 0.3
+        pqr += "REMARK   1 PQR file generated by the verification harness\n"
+        for j, (rec, ser) in enumerate(specs):
+            x, y, z, q, r = 1.5 + j, -2.25 - j, 3.0, (-0.5 if j % 2 else 0.25), 1.8
+            if ws:
+                pqr += f"{rec} {ser} CA ALA A {j+1} {x:.3f} {y:.3f} {z:.3f} {q:.4f} {r:.4f}\n"
+            else:
+                pqr += f"{rec:<6}{ser:5d}  CA  ALA A{j+1:4d}    {x:8.3f}{y:8.3f}{z:8.3f} {q:7.4f} {r:6.4f}\n"
+            if j == 1:
+                pqr += "TER\n"
+            atoms.append((ser, f"{q:.4f}", f"{x:.3f}", f"{y:.3f}", f"{z:.3f}"))
+        pqr += "TER\nEND\n"
         (d / "a.pqr").write_text(pqr)
         old = sys.argv
         sys.argv = ["dx2cube", str(d / "a.dx"), str(d / "a.pqr"), str(d / "a.cube")]
